@@ -62,7 +62,17 @@ where
     /// let _inner = writer.finish()?;
     /// # Ok::<(), io::Error>(())
     /// ```
-    pub fn finish(self) -> io::Result<W> {
+    pub fn finish(mut self) -> io::Result<W> {
+        // The encoder does not retry an interrupted write while finishing, but finishing can be
+        // resumed.
+        loop {
+            match self.inner.try_finish() {
+                Ok(()) => break,
+                Err(ref e) if e.kind() == io::ErrorKind::Interrupted => {}
+                Err(e) => return Err(e),
+            }
+        }
+
         self.inner.finish()
     }
 
